@@ -147,14 +147,15 @@ P("C14", [("K1", r"^k1_(c_ui|l_universe)"), ("V9", None), ("V8", None)],
   "generalize_ty, InferenceValue::unify_values (reference patterns in Verus; Clone glue blow-up in Kani).",
   "contract-based deductive verification: Kani full-domain function contracts + Verus on extracted text")
 
-P("C11", [("K12", r"_q"), ("V5", None), ("V4", None), ("V19", None)],
+P("C11", [("K12", r"_q"), ("V5", None), ("V4", None), ("V19", None), ("V22", None)],
   "model_checking",
   "Partial (first sentence, function-level links): Kani runs the real make_solution on every answer stream up to the bound that contains an interruption and shows the result is "
   "always Some(Ambig(_)) — never Unique, never 'no solution'; Verus proves the SLG stream reports QuantumExceeded only when the caller's callback returned false, and that an "
   "interrupted iteration of the recursive solver returns Ambig(Unknown) without touching the solver state. BOUNDED (stream length <= 2/3) for make_solution; Verus parts unbounded.",
   "Second sentence: decided for one mechanism only — Verus unit V19 states that solve_goal never makes an answer permanent while the callback says stop; this is REFUTED on the pinned tree "
   "(genuine defect, recorded in known_findings.json with a failing input: the recursive solver with its cache returns the cached interrupted `Ambiguous` to every later solve). "
-  "The SLG side of the second sentence (tables persisting across interrupted solves) is a history property and is not reached (see C10).",
+  "SLG side of the second sentence, one mechanism: an interrupted solve ends by dropping its SolveState, and Verus unit V22 proves that this returns every strand still held by the stack to the end of "
+  "its own table's queue and empties the stack, so the forest a later solve sees has lost nothing; that the forest then answers like a fresh one is a history property and is not reached (see C10).",
   "contract-based verification: Kani harness contract over enumerated streams + Verus on extracted text")
 
 P("C01", [("K12", None), ("V1", None), ("V3", None), ("V18", None), ("V23", None), ("V24", None)],
